@@ -169,6 +169,11 @@ Definition a2c_step (cw : Z) (s : a2c_sys) (i : bool * Z) : a2c_sys :=
   let '(st', o) := Axi2ClkFSM_clock cw 1 1 (cs_st s) (b2z (fst i)) (snd i) (cs_count s) in
   {| cs_st := st'; cs_count := upd (cs_count s) (Axi2ClkFSM_o_clk_count o);
      cs_clk := upd (cs_clk s) (Axi2ClkFSM_o_clk_out o); cs_load := upd (cs_load s) (Axi2ClkFSM_o_load_outs o) |}.
+(* probe of the REGENERATED Axi2ClkFSM_clock: does a handshake taken in IDLE clear the counter?  (false at the pinned commit:
+   finding C16-F2; true once the repair fixes/C16-F2.diff is in /repo).  Computed, never edited; the general behaviour is
+   proved from the generated definition in Proofs/C16/Fsm.v (a2c_step_idle_hs), this value only selects the statement. *)
+Definition a2c_clears_on_handshake : bool :=
+  cs_count (a2c_step 8 {| cs_st := {| Axi2ClkFSM_s_state := 0; Axi2ClkFSM_s_target := 0 |}; cs_count := 5; cs_clk := 0; cs_load := 0 |} (true, 1)) =? 0.
 Fixpoint a2c_trace (cw : Z) (s : a2c_sys) (ins : list (bool * Z)) : list (Z * Z) :=
   match ins with [] => [] | i :: rest => let s' := a2c_step cw s i in (cs_clk s', cs_load s') :: a2c_trace cw s' rest end.
 
